@@ -1,294 +1,794 @@
 (* Proofs/CreateProofs.v -- creating a table is idempotent and race-safe (C18). *)
 From Coq Require Import List Bool Arith Lia.
-Require Import DS.Model.Commit DS.Model.Create DS.Proofs.CommitProofs.
+Require Import DS.Model.CommitBase DS.Gen.GenCommit DS.Model.Commit DS.Model.Create DS.Proofs.CommitProofs.
 Import ListNotations.
+
+(* what the SOURCE does on a refused create-if-absent (regenerated): resolve again, remove the own v0 when another
+   table is in effect.  Every proof below that concerns the files a race leaves behind depends on this equation. *)
+Lemma conflict_class_eq : conflict_class = CFTableExistsDiscardForeign.
+Proof. reflexivity. Qed.
 
 Lemma updc_same a p g : updc a p g a = p.
 Proof. unfold updc. rewrite Nat.eqb_refl. reflexivity. Qed.
 Lemma updc_other a b p g : b <> a -> updc a p g b = g b.
 Proof. unfold updc. intro H. destruct (Nat.eqb_spec b a); [contradiction|reflexivity]. Qed.
 
-Definition inLS (p : cpc) : bool :=
-  match p with CLocked | CChecked | CWritten _ | CPointed | CExists => true | _ => false end.
+(* ------------------------------------------------------------------ recovery, deletion *)
+Lemma recover_live l j : recover l = Some j -> exists m, nth_error l j = Some m /\ f_live m = true.
+Proof.
+  revert j. induction l as [|m t IH]; intros j H; simpl in H; [discriminate|].
+  destruct (recover t) as [k|] eqn:R.
+  - destruct (f_live m && (ver_at t k <? f_ver m)) eqn:B; inversion H; subst j.
+    + apply andb_true_iff in B. exists m. simpl. tauto.
+    + simpl. apply IH. reflexivity.
+  - destruct (f_live m) eqn:B; inversion H; subst j. exists m. simpl. auto.
+Qed.
 
-Record CInv (c : cfg) (w : cworld) : Prop := {
-  CI_written : forall a f, c_pc w a = CWritten f -> nth_error (c_files w) f = Some a;
-  CI_ptr : (c_ptr w = None -> c_creates w = []) /\ (length (c_creates w) <= 1)%nat
-           /\ (forall f, c_ptr w = Some f -> (f < length (c_files w))%nat);
-  CI_lock : lockkind c = Excl -> forall a, inLS (c_pc w a) = true -> c_lock w = Some a;
-  CI_excl : lockkind c = Excl -> forall a,
-            (c_pc w a = CChecked -> c_ptr w = None /\ c_files w = [])
-            /\ (forall f, c_pc w a = CWritten f -> c_ptr w = None /\ c_files w = [a]) }.
+Lemma recover_none l : recover l = None -> forall j m, nth_error l j = Some m -> f_live m = false.
+Proof.
+  induction l as [|m t IH]; intros H j x N; [destruct j; discriminate|]. simpl in H.
+  destruct (recover t) as [k|] eqn:R.
+  - destruct (f_live m && (ver_at t k <? f_ver m)); discriminate.
+  - destruct (f_live m) eqn:B; [discriminate|]. destruct j; simpl in N; [inversion N; subst; exact B | eapply IH; eauto].
+Qed.
+
+Lemma recover_only l f : (forall j m, nth_error l j = Some m -> f_live m = true -> j = f) ->
+  (exists m, nth_error l f = Some m /\ f_live m = true) -> recover l = Some f.
+Proof.
+  intros U [m [N L]]. destruct (recover l) as [j|] eqn:R.
+  - destruct (recover_live l j R) as [x [Nx Lx]]. f_equal. eapply U; eauto.
+  - rewrite (recover_none l R f m N) in L. discriminate.
+Qed.
+
+Lemma kill_length f l : length (kill f l) = length l.
+Proof. revert f. induction l as [|m t IH]; intros [|f]; simpl; auto. Qed.
+
+Lemma kill_nth_other f l g : g <> f -> nth_error (kill f l) g = nth_error l g.
+Proof.
+  revert f g. induction l as [|m t IH]; intros [|f] [|g] NE; simpl; auto; try congruence; try (apply IH; congruence).
+Qed.
+
+Lemma kill_nth_same f l m : nth_error l f = Some m ->
+  nth_error (kill f l) f = Some {| f_id := f_id m; f_ver := f_ver m; f_live := false |}.
+Proof.
+  revert f. induction l as [|x t IH]; intros [|f] N; simpl in *; try discriminate; [inversion N; reflexivity | apply IH; exact N].
+Qed.
+
+Lemma kill_nth f l g m : nth_error (kill f l) g = Some m ->
+  exists m0, nth_error l g = Some m0 /\ f_id m = f_id m0 /\ f_ver m = f_ver m0 /\ (f_live m = true -> g <> f /\ m = m0).
+Proof.
+  intro N. destruct (Nat.eq_dec g f) as [->|NE].
+  - destruct (nth_error l f) as [m0|] eqn:N0.
+    + rewrite (kill_nth_same f l m0 N0) in N. inversion N; subst m. exists m0. simpl. repeat split; auto; discriminate.
+    + exfalso. assert (L : nth_error (kill f l) f <> None) by congruence. apply nth_error_Some in L.
+      rewrite kill_length in L. apply nth_error_None in N0. lia.
+  - rewrite kill_nth_other in N by exact NE. exists m. repeat split; auto.
+Qed.
 
 Lemma nth_error_app_old {A} (l : list A) x f a : nth_error l f = Some a -> nth_error (l ++ [x]) f = Some a.
 Proof. intro H. rewrite nth_error_app1; auto. apply nth_error_Some. congruence. Qed.
 
+Lemma nth_error_app_inv {A} (l : list A) x f a : nth_error (l ++ [x]) f = Some a ->
+  nth_error l f = Some a \/ (f = length l /\ a = x).
+Proof.
+  intro H. destruct (Nat.lt_ge_cases f (length l)) as [L|G].
+  - rewrite nth_error_app1 in H by exact L. auto.
+  - rewrite nth_error_app2 in H by exact G. destruct (f - length l) as [|k] eqn:D; simpl in H.
+    + inversion H. right. split; [lia|reflexivity].
+    + destruct k; discriminate.
+Qed.
+
+(* ------------------------------------------------------------------ the invariant *)
+Definition own_of (p : cpc) : option nat :=
+  match p with CWritten f | CConflict f | CForeign f => Some f | _ => None end.
+
+Definition inLS (p : cpc) : bool :=
+  match p with CLocked | CChecked | CWritten _ | CPointed | CConflict _ | CForeign _ | CExists => true | _ => false end.
+
+Definition v0 (a : aid) : mfile := {| f_id := a; f_ver := 0; f_live := true |}.
+
+Record CInv (c : cfg) (w : cworld) : Prop := {
+  CI_own : forall a f, own_of (c_pc w a) = Some f -> nth_error (c_files w) f = Some (v0 a);
+  CI_ptr : forall f, c_ptr w = Some f -> live w f = true /\ forall a, own_of (c_pc w a) <> Some f;
+  CI_creates : (c_ptr w = None -> c_creates w = []) /\ (length (c_creates w) <= 1)%nat;
+  CI_conf : forall a f, c_pc w a = CConflict f \/ c_pc w a = CForeign f -> c_ptr w <> None;
+  CI_lock : lockkind c = Excl -> forall a, inLS (c_pc w a) = true -> c_lock w = Some a;
+  CI_held : forall a, c_lock w = Some a -> inLS (c_pc w a) = true;
+  CI_excl : lockkind c = Excl -> forall a,
+            (c_pc w a = CChecked -> c_ptr w = None /\ c_files w = [])
+            /\ (forall f, c_pc w a = CWritten f -> c_ptr w = None /\ c_files w = [v0 a])
+            /\ (forall f, c_pc w a <> CConflict f /\ c_pc w a <> CForeign f);
+  CI_alllive : lockkind c = Excl -> forall g m, nth_error (c_files w) g = Some m -> f_live m = true }.
+
+Ltac upd b a := destruct (Nat.eq_dec b a) as [?EQ|?NE]; [first [subst b | rewrite EQ in *]; rewrite ?updc_same in * | rewrite ?updc_other in * by assumption].
+
+(* every enabled step, opened up: the goal is left with one case per transition, H consumed *)
+Ltac open_step H :=
+  unfold cstep in H; cbv zeta in H; rewrite ?conflict_class_eq in H;
+  match type of H with context [ce_kind ?e] =>
+    destruct (ce_kind e) as [found|ok|found| |ok|same| | | ]; [ | destruct ok | | | | | | | ];
+    match type of H with context [c_pc ?w (ce_actor e)] => destruct (c_pc w (ce_actor e)) eqn:PC end; try discriminate
+  end;
+  repeat match type of H with
+         | (if ?b then _ else _) = Some _ => let B := fresh "B" in destruct b eqn:B; try discriminate
+         end;
+  inversion H; subst; clear H.
+Lemma set_inv c w a p : CInv c w ->
+  (forall f, own_of p = Some f -> nth_error (c_files w) f = Some (v0 a) /\ c_ptr w <> Some f) ->
+  (forall f, p = CConflict f \/ p = CForeign f -> c_ptr w <> None) ->
+  (lockkind c = Excl -> inLS p = true -> c_lock w = Some a) ->
+  (c_lock w = Some a -> inLS p = true) ->
+  (lockkind c = Excl -> (p = CChecked -> c_ptr w = None /\ c_files w = [])
+                        /\ (forall f, p = CWritten f -> c_ptr w = None /\ c_files w = [v0 a])
+                        /\ (forall f, p <> CConflict f /\ p <> CForeign f)) ->
+  CInv c (set w a p).
+Proof.
+  intros I Ho Hc Hl Hh He. constructor; simpl.
+  - intros b f O. upd b a; [apply Ho; exact O | apply (CI_own c w I b f O)].
+  - intros f P. destruct (CI_ptr c w I f P) as [L N]. split; [exact L|]. intros b O. upd b a.
+    + destruct (Ho f O) as [_ X]. contradiction.
+    + apply (N b O).
+  - apply I.
+  - intros b f X. upd b a; [apply (Hc f X) | apply (CI_conf c w I b f X)].
+  - intros LK b X. upd b a; [apply Hl; assumption | apply (CI_lock c w I LK b X)].
+  - intros b X. upd b a; [apply Hh; exact X | apply (CI_held c w I b X)].
+  - intros LK b. upd b a; [apply He; exact LK | apply (CI_excl c w I LK b)].
+  - apply I.
+Qed.
+Lemma resolve_none_excl c w : CInv c w -> lockkind c = Excl -> resolve w = None -> c_ptr w = None /\ c_files w = [].
+Proof.
+  intros I LK R. unfold resolve in R. destruct (c_ptr w) as [f|] eqn:P.
+  - destruct (CI_ptr c w I f P) as [L _]. rewrite L in R. discriminate.
+  - split; [reflexivity|]. destruct (c_files w) as [|m t] eqn:F; [reflexivity|].
+    pose proof (recover_none _ R 0 m eq_refl) as D. pose proof (CI_alllive c w I LK 0 m) as A. rewrite F in A.
+    specialize (A eq_refl). congruence.
+Qed.
+
+Lemma notLS_fields p (A : Prop) (B : nat -> Prop) : inLS p = false ->
+  (p = CChecked -> A) /\ (forall f, p = CWritten f -> B f) /\ (forall f, p <> CConflict f /\ p <> CForeign f).
+Proof. intro X. destruct p; try discriminate; repeat split; intros; discriminate. Qed.
+
 Lemma cstep_inv c w e w' : sound c -> CInv c w -> cstep c w e = Some w' -> CInv c w'.
 Proof.
-  intros Snd I H. unfold cstep in H. cbv zeta in H. set (a := ce_actor e) in *.
-  destruct (ce_kind e) as [found|ok|found| |ok| | ]; [ | destruct ok | | | | | ]; destruct (c_pc w a) eqn:PC; try discriminate.
-  - (* CProbe *)
-    destruct (Bool.eqb found (isSome (resolve w))); [|discriminate]. inversion H; subst w'; clear H.
-    constructor; simpl; try apply I.
-    + intros b f P. destruct (Nat.eq_dec b a) as [->|NE]; [rewrite updc_same in P; destruct found; discriminate|].
-      rewrite updc_other in P by exact NE. apply (CI_written c w I b f P).
-    + intros LK b P. destruct (Nat.eq_dec b a) as [->|NE]; [rewrite updc_same in P; destruct found; discriminate|].
-      rewrite updc_other in P by exact NE. apply (CI_lock c w I LK b P).
-    + intros LK b. destruct (Nat.eq_dec b a) as [->|NE].
-      * rewrite updc_same. split; [intro P; destruct found; discriminate | intros f P; destruct found; discriminate].
-      * rewrite updc_other by exact NE. apply (CI_excl c w I LK b).
-  - (* CLockTry true *)
-    destruct (cfree c w) eqn:Fr; [|discriminate]. inversion H; subst w'; clear H.
-    constructor; simpl; try apply I.
-    + intros b f P. destruct (Nat.eq_dec b a) as [->|NE]; [rewrite updc_same in P; discriminate|].
-      rewrite updc_other in P by exact NE. apply (CI_written c w I b f P).
-    + intros LK b P. rewrite LK. destruct (Nat.eq_dec b a) as [->|NE]; [reflexivity|].
-      rewrite updc_other in P by exact NE. pose proof (CI_lock c w I LK b P) as L.
-      unfold cfree in Fr. rewrite LK, L in Fr. discriminate.
-    + intros LK b. destruct (Nat.eq_dec b a) as [->|NE].
-      * rewrite updc_same. split; [discriminate | intros f P; discriminate].
-      * rewrite updc_other by exact NE. apply (CI_excl c w I LK b).
-  - (* CLockTry false *)
-    destruct (cfree c w); [discriminate|]. inversion H; subst w'. exact I.
-  - (* CCheck *)
-    destruct (Bool.eqb found (isSome (resolve w))) eqn:EQ; [|discriminate]. apply eqb_prop in EQ.
-    inversion H; subst w'; clear H.
-    constructor; simpl; try apply I.
-    + intros b f P. destruct (Nat.eq_dec b a) as [->|NE]; [rewrite updc_same in P; destruct found; discriminate|].
-      rewrite updc_other in P by exact NE. apply (CI_written c w I b f P).
-    + intros LK b P. destruct (Nat.eq_dec b a) as [->|NE].
-      * apply (CI_lock c w I LK a). rewrite PC. reflexivity.
-      * rewrite updc_other in P by exact NE. apply (CI_lock c w I LK b P).
-    + intros LK b. destruct (Nat.eq_dec b a) as [->|NE].
-      * rewrite updc_same. split; [|intros f P; destruct found; discriminate].
-        intro P. destruct found; [discriminate|]. unfold resolve in EQ.
-        destruct (c_ptr w); [discriminate|]. destruct (c_files w); [auto|discriminate].
-      * rewrite updc_other by exact NE. apply (CI_excl c w I LK b).
-  - (* CMetaW *)
-    inversion H; subst w'; clear H.
-    assert (Others : lockkind c = Excl -> forall b, b <> a -> c_pc w b <> CChecked /\ forall f, c_pc w b <> CWritten f).
-    { intros LK b NE. pose proof (CI_lock c w I LK a) as La. rewrite PC in La. specialize (La eq_refl).
-      split; [intro P | intros f P]; pose proof (CI_lock c w I LK b) as Lb; rewrite P in Lb; specialize (Lb eq_refl); congruence. }
+  intros Snd I H. open_step H.
+  - (* Probe *)
+    apply set_inv; auto.
+    + intros f O. destruct found; discriminate.
+    + intros f [X|X]; destruct found; discriminate.
+    + intros _ X. destruct found; discriminate.
+    + intro L. pose proof (CI_held c w I _ L) as X. rewrite PC in X. discriminate.
+    + intros _. repeat split; try (destruct found; discriminate).
+  - (* LockTry true *)
+    set (a := ce_actor e) in *.
     constructor; simpl.
-    + intros b f P. destruct (Nat.eq_dec b a) as [->|NE].
-      * rewrite updc_same in P. inversion P; subst f. rewrite nth_error_app2 by lia. rewrite Nat.sub_diag. reflexivity.
-      * rewrite updc_other in P by exact NE. apply nth_error_app_old. apply (CI_written c w I b f P).
-    + destruct (CI_ptr c w I) as [P1 [P2 P3]]. split; [exact P1|]. split; [exact P2|].
-      intros f Hf. specialize (P3 f Hf). rewrite app_length. simpl. lia.
-    + intros LK b P. destruct (Nat.eq_dec b a) as [->|NE].
-      * apply (CI_lock c w I LK a). rewrite PC. reflexivity.
-      * rewrite updc_other in P by exact NE. apply (CI_lock c w I LK b P).
-    + intros LK b. destruct (Nat.eq_dec b a) as [->|NE].
-      * rewrite updc_same. split; [discriminate|]. intros f P.
+    + intros b f O. upd b a; [discriminate | apply (CI_own c w I b f O)].
+    + intros f P. destruct (CI_ptr c w I f P) as [L N]. split; [exact L|]. intros b O. upd b a; [discriminate | apply (N b O)].
+    + apply I.
+    + intros b f X. upd b a; [destruct X; discriminate | apply (CI_conf c w I b f X)].
+    + intros LK b X. rewrite LK. upd b a; [reflexivity|].
+      pose proof (CI_lock c w I LK b X) as L. unfold cfree in B. rewrite LK, L in B. discriminate.
+    + intros b X. unfold cfree in B. destruct (lockkind c).
+      * destruct (c_lock w); [discriminate|]. inversion X; subst b. rewrite updc_same. reflexivity.
+      * destruct (c_lock w); [discriminate|]. inversion X; subst b. rewrite updc_same. reflexivity.
+      * upd b a; [reflexivity | apply (CI_held c w I b X)].
+    + intros LK b. upd b a; [repeat split; discriminate | apply (CI_excl c w I LK b)].
+    + apply I.
+  - (* LockTry false *) exact I.
+  - (* Check *)
+    set (a := ce_actor e) in *. apply eqb_prop in B.
+    apply set_inv; auto.
+    + intros f O. destruct found; discriminate.
+    + intros f [X|X]; destruct found; discriminate.
+    + intros LK _. apply (CI_lock c w I LK a). rewrite PC. reflexivity.
+    + intros _. destruct found; reflexivity.
+    + intros LK. repeat split; try (destruct found; discriminate).
+      * destruct found; [discriminate|]. destruct (resolve w) eqn:R; [discriminate|]. apply (resolve_none_excl c w I LK R).
+      * destruct found; [discriminate|]. destruct (resolve w) eqn:R; [discriminate|]. apply (resolve_none_excl c w I LK R).
+  - (* MetaW *)
+    set (a := ce_actor e) in *.
+    assert (Others : lockkind c = Excl -> forall b, b <> a -> inLS (c_pc w b) = false).
+    { intros LK b NE. destruct (inLS (c_pc w b)) eqn:X; [|reflexivity].
+      pose proof (CI_lock c w I LK a) as La. rewrite PC in La. specialize (La eq_refl).
+      pose proof (CI_lock c w I LK b X). congruence. }
+    constructor; simpl.
+    + intros b f O. upd b a.
+      * inversion O; subst f. rewrite nth_error_app2 by lia. rewrite Nat.sub_diag. reflexivity.
+      * apply nth_error_app_old. apply (CI_own c w I b f O).
+    + intros f P. destruct (CI_ptr c w I f P) as [L N]. split.
+      * unfold live in *. simpl. destruct (nth_error (c_files w) f) eqn:X; [|discriminate].
+        rewrite (nth_error_app_old _ _ _ _ X). exact L.
+      * intros b O. upd b a; [|apply (N b O)]. inversion O; subst f. unfold live in L.
+        destruct (nth_error (c_files w) (length (c_files w))) eqn:X; [|discriminate].
+        assert (Y : nth_error (c_files w) (length (c_files w)) <> None) by congruence. apply nth_error_Some in Y. lia.
+    + apply I.
+    + intros b f X. upd b a; [destruct X; discriminate | apply (CI_conf c w I b f X)].
+    + intros LK b X. upd b a; [apply (CI_lock c w I LK a); rewrite PC; reflexivity | apply (CI_lock c w I LK b X)].
+    + intros b X. upd b a; [reflexivity | apply (CI_held c w I b X)].
+    + intros LK b. upd b a.
+      * split; [discriminate|]. split; [|split; discriminate]. intros f _.
         destruct (proj1 (CI_excl c w I LK a) PC) as [E1 E2]. rewrite E2. simpl. auto.
-      * rewrite updc_other by exact NE. destruct (Others LK b NE) as [O1 O2].
-        split; [intro P; contradiction | intros f P; exfalso; apply (O2 f P)].
-  - (* CPtrCreate *)
-    assert (PN : ok = true -> c_ptr w = None).
-    { intro E. subst ok. destruct Snd as [CAS|EX].
-      - rewrite CAS in H. destruct (c_ptr w); simpl in H; [discriminate|reflexivity].
-      - apply (proj2 (CI_excl c w I EX a) f PC). }
-    destruct (Bool.eqb ok (if cas c then negb (isSome (c_ptr w)) else true)); [|discriminate].
-    destruct ok; inversion H; subst w'; clear H.
-    + specialize (PN eq_refl). destruct (CI_ptr c w I) as [P1 [P2 P3]].
-      constructor; simpl.
-      * intros b g P. destruct (Nat.eq_dec b a) as [->|NE]; [rewrite updc_same in P; discriminate|].
-        rewrite updc_other in P by exact NE. apply (CI_written c w I b g P).
-      * split; [discriminate|].
-        split; [rewrite app_length, (P1 PN); simpl; lia|].
-        intros g Hg. inversion Hg; subst g. pose proof (CI_written c w I a f PC) as N.
-        apply nth_error_Some. congruence.
-      * intros LK b P. destruct (Nat.eq_dec b a) as [->|NE].
-        -- apply (CI_lock c w I LK a). rewrite PC. reflexivity.
-        -- rewrite updc_other in P by exact NE. apply (CI_lock c w I LK b P).
-      * intros LK b. destruct (Nat.eq_dec b a) as [->|NE].
-        -- rewrite updc_same. split; [discriminate | intros g P; discriminate].
-        -- rewrite updc_other by exact NE.
-           pose proof (CI_lock c w I LK a) as La. rewrite PC in La. specialize (La eq_refl).
-           split; [intro P | intros g P]; exfalso; pose proof (CI_lock c w I LK b) as Lb; rewrite P in Lb; specialize (Lb eq_refl); congruence.
-    + constructor; simpl; try apply I.
-      * intros b g P. destruct (Nat.eq_dec b a) as [->|NE]; [rewrite updc_same in P; discriminate|].
-        rewrite updc_other in P by exact NE. apply (CI_written c w I b g P).
-      * intros LK b P. destruct (Nat.eq_dec b a) as [->|NE].
-        -- apply (CI_lock c w I LK a). rewrite PC. reflexivity.
-        -- rewrite updc_other in P by exact NE. apply (CI_lock c w I LK b P).
-      * intros LK b. destruct (Nat.eq_dec b a) as [->|NE].
-        -- rewrite updc_same. split; [discriminate | intros g P; discriminate].
-        -- rewrite updc_other by exact NE. apply (CI_excl c w I LK b).
-  - (* CRelease from CPointed *)
-    inversion H; subst w'; clear H.
-    constructor; simpl; try apply I.
-    + intros b g P. destruct (Nat.eq_dec b a) as [->|NE]; [rewrite updc_same in P; discriminate|].
-      rewrite updc_other in P by exact NE. apply (CI_written c w I b g P).
-    + intros LK b P. destruct (Nat.eq_dec b a) as [->|NE]; [rewrite updc_same in P; discriminate|].
-      rewrite updc_other in P by exact NE.
+      * apply notLS_fields. apply (Others LK b NE).
+    + intros LK g m N. apply nth_error_app_inv in N. destruct N as [N|[_ ->]]; [apply (CI_alllive c w I LK g m N) | reflexivity].
+  - (* PtrCreate true *)
+    set (a := ce_actor e) in *. apply eqb_prop in B.
+    assert (PN : c_ptr w = None).
+    { destruct Snd as [CAS|EX].
+      - rewrite CAS in B. destruct (c_ptr w); [discriminate|reflexivity].
+      - apply (proj1 (proj2 (CI_excl c w I EX a)) f PC). }
+    pose proof (CI_own c w I a f) as Of. rewrite PC in Of. specialize (Of eq_refl).
+    constructor; simpl.
+    + intros b g O. upd b a; [discriminate | apply (CI_own c w I b g O)].
+    + intros g P. inversion P; subst g. split; [unfold live; simpl; rewrite Of; reflexivity|].
+      intros b O. upd b a; [discriminate|]. pose proof (CI_own c w I b f O) as Ob. rewrite Of in Ob. inversion Ob. congruence.
+    + split; [discriminate|]. rewrite app_length, (proj1 (CI_creates c w I) PN). simpl. lia.
+    + intros b g X. discriminate.
+    + intros LK b X. upd b a; [apply (CI_lock c w I LK a); rewrite PC; reflexivity | apply (CI_lock c w I LK b X)].
+    + intros b X. upd b a; [reflexivity | apply (CI_held c w I b X)].
+    + intros LK b. upd b a; [repeat split; discriminate|].
       pose proof (CI_lock c w I LK a) as La. rewrite PC in La. specialize (La eq_refl).
-      pose proof (CI_lock c w I LK b P). congruence.
-    + intros LK b. destruct (Nat.eq_dec b a) as [->|NE].
-      * rewrite updc_same. split; [discriminate | intros g P; discriminate].
-      * rewrite updc_other by exact NE. apply (CI_excl c w I LK b).
-  - (* CRelease from CExists *)
-    inversion H; subst w'; clear H.
+      assert (X : inLS (c_pc w b) = false).
+      { destruct (inLS (c_pc w b)) eqn:X; [|reflexivity]. pose proof (CI_lock c w I LK b X). congruence. }
+      apply notLS_fields. exact X.
+    + apply I.
+  - (* PtrCreate refused *)
+    set (a := ce_actor e) in *. apply eqb_prop in B.
+    assert (PS : c_ptr w <> None /\ lockkind c <> Excl).
+    { split.
+      - destruct (cas c); [|discriminate]. destruct (c_ptr w); [discriminate|discriminate].
+      - intro EX. destruct (proj1 (proj2 (CI_excl c w I EX a)) f PC) as [N _]. rewrite N in B. destruct (cas c); discriminate. }
+    destruct PS as [PS NEX].
+    apply set_inv; auto.
+    + intros g O. inversion O; subst g. split.
+      * apply (CI_own c w I a f). rewrite PC. reflexivity.
+      * intro P. apply (proj2 (CI_ptr c w I f P) a). rewrite PC. reflexivity.
+    + intros LK. contradiction.
+    + intros LK. contradiction.
+  - (* Recheck *)
+    set (a := ce_actor e) in *.
+    assert (NEX : lockkind c <> Excl).
+    { intro EX. apply (proj1 (proj2 (proj2 (CI_excl c w I EX a)) f) PC). }
+    apply set_inv; auto.
+    + intros g O. destruct same; [discriminate|]. inversion O; subst g. split.
+      * apply (CI_own c w I a f). rewrite PC. reflexivity.
+      * intro P. apply (proj2 (CI_ptr c w I f P) a). rewrite PC. reflexivity.
+    + intros g _. apply (CI_conf c w I a f). auto.
+    + intros LK. contradiction.
+    + intros _. destruct same; reflexivity.
+    + intros LK. contradiction.
+  - (* Discard *)
+    set (a := ce_actor e) in *.
+    assert (NEX : lockkind c <> Excl).
+    { intro EX. apply (proj2 (proj2 (proj2 (CI_excl c w I EX a)) f) PC). }
+    constructor; simpl.
+    + intros b g O. upd b a; [discriminate|].
+      assert (g <> f).
+      { intro E. subst g. pose proof (CI_own c w I b f O) as Ob. pose proof (CI_own c w I a f) as Oa. rewrite PC in Oa.
+        specialize (Oa eq_refl). rewrite Oa in Ob. inversion Ob. congruence. }
+      rewrite kill_nth_other by assumption. apply (CI_own c w I b g O).
+    + intros g P. destruct (CI_ptr c w I g P) as [L N]. 
+      assert (g <> f) by (intro E; subst g; apply (N a); rewrite PC; reflexivity).
+      split; [unfold live in *; simpl; rewrite kill_nth_other by assumption; exact L|].
+      intros b O. upd b a; [discriminate | apply (N b O)].
+    + apply I.
+    + intros b g X. upd b a; [destruct X; discriminate | apply (CI_conf c w I b g X)].
+    + intros LK. contradiction.
+    + intros b X. upd b a; [reflexivity | apply (CI_held c w I b X)].
+    + intros LK. contradiction.
+    + intros LK. contradiction.
+  - (* Release from CPointed *)
+    set (a := ce_actor e) in *.
     constructor; simpl; try apply I.
-    + intros b g P. destruct (Nat.eq_dec b a) as [->|NE]; [rewrite updc_same in P; discriminate|].
-      rewrite updc_other in P by exact NE. apply (CI_written c w I b g P).
-    + intros LK b P. destruct (Nat.eq_dec b a) as [->|NE]; [rewrite updc_same in P; discriminate|].
-      rewrite updc_other in P by exact NE.
+    + intros b g O. upd b a; [discriminate | apply (CI_own c w I b g O)].
+    + intros g P. destruct (CI_ptr c w I g P) as [L N]. split; [exact L|]. intros b O. upd b a; [discriminate | apply (N b O)].
+    + intros b g X. upd b a; [destruct X; discriminate | apply (CI_conf c w I b g X)].
+    + intros LK b X. upd b a; [discriminate|].
       pose proof (CI_lock c w I LK a) as La. rewrite PC in La. specialize (La eq_refl).
-      pose proof (CI_lock c w I LK b P). congruence.
-    + intros LK b. destruct (Nat.eq_dec b a) as [->|NE].
-      * rewrite updc_same. split; [discriminate | intros g P; discriminate].
-      * rewrite updc_other by exact NE. apply (CI_excl c w I LK b).
-  - (* CAdopt *)
-    inversion H; subst w'; clear H.
+      pose proof (CI_lock c w I LK b X). congruence.
+    + intros b X. unfold release in X. destruct (c_lock w) as [l|] eqn:L; [|discriminate].
+      destruct (Nat.eqb_spec a l); [discriminate|]. inversion X; subst l. upd b a; [congruence | apply (CI_held c w I b L)].
+    + intros LK b. upd b a; [repeat split; discriminate | apply (CI_excl c w I LK b)].
+  - (* Release from CExists *)
+    set (a := ce_actor e) in *.
     constructor; simpl; try apply I.
-    + intros b g P. destruct (Nat.eq_dec b a) as [->|NE]; [rewrite updc_same in P; discriminate|].
-      rewrite updc_other in P by exact NE. apply (CI_written c w I b g P).
-    + intros LK b P. destruct (Nat.eq_dec b a) as [->|NE]; [rewrite updc_same in P; discriminate|].
-      rewrite updc_other in P by exact NE. apply (CI_lock c w I LK b P).
-    + intros LK b. destruct (Nat.eq_dec b a) as [->|NE].
-      * rewrite updc_same. split; [discriminate | intros g P; discriminate].
-      * rewrite updc_other by exact NE. apply (CI_excl c w I LK b).
+    + intros b g O. upd b a; [discriminate | apply (CI_own c w I b g O)].
+    + intros g P. destruct (CI_ptr c w I g P) as [L N]. split; [exact L|]. intros b O. upd b a; [discriminate | apply (N b O)].
+    + intros b g X. upd b a; [destruct X; discriminate | apply (CI_conf c w I b g X)].
+    + intros LK b X. upd b a; [discriminate|].
+      pose proof (CI_lock c w I LK a) as La. rewrite PC in La. specialize (La eq_refl).
+      pose proof (CI_lock c w I LK b X). congruence.
+    + intros b X. unfold release in X. destruct (c_lock w) as [l|] eqn:L; [|discriminate].
+      destruct (Nat.eqb_spec a l); [discriminate|]. inversion X; subst l. upd b a; [congruence | apply (CI_held c w I b L)].
+    + intros LK b. upd b a; [repeat split; discriminate | apply (CI_excl c w I LK b)].
+  - (* Adopt *)
+    apply set_inv; auto; try discriminate.
+    + intros f [X|X]; discriminate.
+    + intro L. pose proof (CI_held c w I _ L) as X. rewrite PC in X. discriminate.
+    + intros _. repeat split; discriminate.
 Qed.
 
 Lemma crun_cons c w e evs : crun c w (e :: evs) = crun c (cstep_skip c w e) evs.
 Proof. reflexivity. Qed.
 
-Lemma crun_inv c w evs : sound c -> CInv c w -> CInv c (crun c w evs).
+Lemma crun_app c w l1 l2 : crun c w (l1 ++ l2) = crun c (crun c w l1) l2.
+Proof. unfold crun. apply fold_left_app. Qed.
+
+(* an invariant of single steps is an invariant of runs *)
+Lemma crun_ind c (P : cworld -> Prop) : (forall w e w', P w -> cstep c w e = Some w' -> P w') ->
+  forall evs w, P w -> P (crun c w evs).
 Proof.
-  intro Snd. revert w. induction evs as [|e l IH]; intros w I; [exact I|]. rewrite crun_cons. apply IH.
-  unfold cstep_skip. destruct (cstep c w e) eqn:St; [eapply cstep_inv; eauto | exact I].
+  intros St. induction evs as [|e l IH]; intros w Pw; [exact Pw|]. rewrite crun_cons. apply IH. unfold cstep_skip.
+  destruct (cstep c w e) eqn:S; [eapply St; eauto | exact Pw].
 Qed.
+
+Lemma crun_inv c w evs : sound c -> CInv c w -> CInv c (crun c w evs).
+Proof. intros Snd. apply crun_ind. intros w0 e w1 I S. eapply cstep_inv; eauto. Qed.
 
 Lemma absent_inv c : CInv c absent.
 Proof.
   constructor; simpl; try discriminate.
-  - split; [auto|]. split; [lia | discriminate].
-  - intros _ a. split; discriminate.
+  - split; [auto|lia].
+  - intros a f [X|X]; discriminate.
+  - intros _ a. repeat split; discriminate.
+  - intros _ [|g] m; discriminate.
 Qed.
 
-Lemma existing_inv c owner lost : CInv c (existing owner lost).
+Lemma chain_nth owner n g m : nth_error (chain owner n) g = Some m -> m = {| f_id := owner; f_ver := g; f_live := true |} /\ (g <= n)%nat.
+Proof.
+  unfold chain. intro N. destruct (nth_error (seq 0 (S n)) g) as [v|] eqn:X.
+  - rewrite (map_nth_error _ _ _ X) in N. inversion N.
+    assert (L : (g < length (seq 0 (S n)))%nat) by (apply nth_error_Some; congruence). rewrite seq_length in L.
+    assert (V : nth g (seq 0 (S n)) 0 = v) by (apply nth_error_nth; exact X). rewrite seq_nth in V by exact L. simpl in V. subst v.
+    split; [reflexivity | lia].
+  - apply nth_error_None in X. rewrite seq_length in X. assert (Y : nth_error (map (fun v : nat => {| f_id := owner; f_ver := v; f_live := true |}) (seq 0 (S n))) g <> None) by congruence.
+    apply nth_error_Some in Y. rewrite map_length, seq_length in Y. lia.
+Qed.
+
+Lemma chain_last owner n : nth_error (chain owner n) n = Some {| f_id := owner; f_ver := n; f_live := true |}.
+Proof.
+  unfold chain. assert (X : nth_error (seq 0 (S n)) n = Some n).
+  { rewrite (nth_error_nth' _ 0) by (rewrite seq_length; lia). rewrite seq_nth by lia. reflexivity. }
+  rewrite (map_nth_error _ _ _ X). reflexivity.
+Qed.
+
+Lemma existing_inv c owner n lost : CInv c (existing_n owner n lost).
 Proof.
   constructor; simpl; try discriminate.
-  - split; [auto|]. split; [lia|]. destruct lost; intros f H; inversion H; simpl; lia.
-  - intros _ a. split; discriminate.
+  - intros f P. split; [|discriminate]. destruct lost; inversion P; subst f. unfold live. simpl. rewrite chain_last. reflexivity.
+  - split; [auto|lia].
+  - intros a f [X|X]; discriminate.
+  - intros _ a. repeat split; discriminate.
+  - intros _ g m N. apply chain_nth in N. destruct N as [-> _]. reflexivity.
 Qed.
 
 (* exactly one initialisation takes effect: at most one pointer creation ever succeeds *)
 Theorem single_init c evs : sound c -> (length (c_creates (crun c absent evs)) <= 1)%nat.
-Proof. intro Snd. apply (CI_ptr c _ (crun_inv c absent evs Snd (absent_inv c))). Qed.
+Proof. intro Snd. apply (CI_creates c _ (crun_inv c absent evs Snd (absent_inv c))). Qed.
 
 (* once the pointer names a table it never names another one (within creation / opening) *)
 Lemma cstep_ptr_stable c w e w' f : sound c -> CInv c w -> cstep c w e = Some w' -> c_ptr w = Some f -> c_ptr w' = Some f.
 Proof.
-  intros Snd I H P. unfold cstep in H. cbv zeta in H.
-  destruct (ce_kind e) as [found|ok|found| |ok| | ]; [ | destruct ok | | | | | ];
-    destruct (c_pc w (ce_actor e)) eqn:PC; try discriminate;
-    repeat match goal with
-           | H : (if ?b then _ else _) = Some _ |- _ => destruct b eqn:?; try discriminate
-           end; inversion H; subst w'; simpl; auto.
+  intros Snd I H P. open_step H; simpl; auto.
   (* PtrCreate true with a pointer already present: impossible *)
-  exfalso. destruct Snd as [CAS|EX].
-  - rewrite CAS, P in *. simpl in *. destruct ok; discriminate.
-  - destruct (proj2 (CI_excl c w I EX (ce_actor e)) _ PC) as [N _]. congruence.
+  exfalso. apply eqb_prop in B. destruct Snd as [CAS|EX].
+  - rewrite CAS, P in B. discriminate.
+  - destruct (proj1 (proj2 (CI_excl c w I EX (ce_actor e))) _ PC) as [N _]. congruence.
 Qed.
 
 Theorem pointer_stable c w evs f : sound c -> CInv c w -> c_ptr w = Some f -> c_ptr (crun c w evs) = Some f.
 Proof.
-  intro Snd. revert w. induction evs as [|e l IH]; intros w I P; [exact P|]. rewrite crun_cons. unfold cstep_skip.
-  destruct (cstep c w e) as [w'|] eqn:St; [|apply IH; auto].
-  apply IH; [eapply cstep_inv; eauto | eapply cstep_ptr_stable; eauto].
+  intros Snd I P.
+  assert (G : CInv c (crun c w evs) /\ c_ptr (crun c w evs) = Some f); [|apply G].
+  apply (crun_ind c (fun x => CInv c x /\ c_ptr x = Some f)); [|auto].
+  intros w0 e w1 [I0 P0] S. split; [eapply cstep_inv; eauto | eapply cstep_ptr_stable; eauto].
 Qed.
 
-(* an existing table -- pointer intact or lost -- is never re-initialised: no metadata file is written,
-   no pointer is created, and every caller adopts the existing identity *)
-Definition EInv (owner : aid) (p0 : option nat) (w : cworld) : Prop :=
-  c_files w = [owner] /\ c_ptr w = p0 /\ c_creates w = [] /\ c_lock w = None
-  /\ forall a, c_pc w a = CIdle \/ c_pc w a = CDone (Some owner).
-
-Lemma cstep_einv c owner p0 w e w' : (p0 = None \/ p0 = Some 0) -> EInv owner p0 w -> cstep c w e = Some w' -> EInv owner p0 w'.
+(* a file's identity never changes, files are never forgotten *)
+Lemma cstep_identity c w e w' g u : cstep c w e = Some w' -> identity w g = Some u -> identity w' g = Some u.
 Proof.
-  intros HP [F [P [C [L A]]]] H. unfold cstep in H. cbv zeta in H.
-  assert (R : resolve w = Some 0). { unfold resolve. rewrite P, F. destruct HP as [->| ->]; reflexivity. }
-  destruct (A (ce_actor e)) as [PC|PC]; rewrite PC in H;
-    destruct (ce_kind e) as [found|ok|found| |ok| | ]; try discriminate; try (destruct ok; discriminate).
-  rewrite R in H. simpl in H. destruct found; simpl in H; [|discriminate]. inversion H; subst w'; clear H.
-  unfold EInv. simpl. repeat split; auto. intro b. unfold updc. destruct (Nat.eqb_spec b (ce_actor e)); [|apply A].
-  right. unfold identity. rewrite F. reflexivity.
+  intros H X. unfold identity in *. open_step H; simpl; auto.
+  - destruct (nth_error (c_files w) g) eqn:N; [|discriminate]. rewrite (nth_error_app_old _ _ _ _ N). exact X.
+  - destruct (nth_error (c_files w) g) as [m|] eqn:N; [|discriminate]. destruct (Nat.eq_dec g f) as [->|NE].
+    + rewrite (kill_nth_same _ _ _ N). exact X.
+    + rewrite kill_nth_other by exact NE. rewrite N. exact X.
 Qed.
 
-Theorem existing_never_reinitialised c owner lost evs :
-  let w := crun c (existing owner lost) evs in
-  c_files w = [owner] /\ c_ptr w = (if lost then None else Some 0) /\ c_creates w = []
+(* ------------------------------------------------------------------ an existing table is never re-initialised *)
+Definition settled (w : cworld) : Prop := forall a, at_rest (c_pc w a) = true.
+Definition one_identity (owner : aid) (l : list mfile) : Prop :=
+  (forall g m, nth_error l g = Some m -> f_live m = true -> f_id m = owner)
+  /\ (exists g m, nth_error l g = Some m /\ f_live m = true).
+
+Lemma table_id_owner owner w : one_identity owner (c_files w) -> exists f, resolve w = Some f /\ table_id w = Some owner.
+Proof.
+  intros [A [g [m [N L]]]].
+  assert (R : exists j, recover (c_files w) = Some j).
+  { destruct (recover (c_files w)) as [j|] eqn:R; [eauto|]. rewrite (recover_none _ R g m N) in L. discriminate. }
+  destruct R as [j R]. destruct (recover_live _ _ R) as [mj [Nj Lj]].
+  unfold table_id, resolve, identity, live. destruct (c_ptr w) as [f|].
+  - destruct (nth_error (c_files w) f) as [mf|] eqn:Nf.
+    + destruct (f_live mf) eqn:Lf.
+      * exists f. split; [reflexivity|]. rewrite Nf. simpl. f_equal. eapply A; eauto.
+      * exists j. rewrite R. split; [reflexivity|]. rewrite Nj. simpl. f_equal. eapply A; eauto.
+    + exists j. rewrite R. split; [reflexivity|]. rewrite Nj. simpl. f_equal. eapply A; eauto.
+  - exists j. rewrite R. split; [reflexivity|]. rewrite Nj. simpl. f_equal. eapply A; eauto.
+Qed.
+
+Definition EInv (owner : aid) (w0 w : cworld) : Prop :=
+  c_files w = c_files w0 /\ c_ptr w = c_ptr w0 /\ c_creates w = c_creates w0 /\ c_lock w = None /\ settled w
+  /\ forall a u, c_pc w a = CDone u -> c_pc w0 a = CDone u \/ u = Some owner.
+
+Lemma cstep_einv c owner w0 w e w' : one_identity owner (c_files w0) -> EInv owner w0 w -> cstep c w e = Some w' -> EInv owner w0 w'.
+Proof.
+  intros OI [F [P [C [L [S A]]]]] H.
+  assert (OI' : one_identity owner (c_files w)) by (rewrite F; exact OI).
+  destruct (table_id_owner owner w OI') as [f [R T]].
+  pose proof (S (ce_actor e)) as Rest.
+  open_step H; try discriminate.
+  rewrite R in B. destruct found; [|discriminate]. rewrite T.
+  unfold EInv, settled. simpl. repeat split; auto.
+  - intro b. upd b (ce_actor e); [reflexivity | apply S].
+  - intros b u D. upd b (ce_actor e); [inversion D; auto | apply (A b u D)].
+Qed.
+
+Theorem existing_never_reinitialised_gen c owner w0 evs :
+  one_identity owner (c_files w0) -> c_lock w0 = None -> settled w0 ->
+  let w := crun c w0 evs in
+  c_files w = c_files w0 /\ c_ptr w = c_ptr w0 /\ c_creates w = c_creates w0
+  /\ forall a u, c_pc w a = CDone u -> c_pc w0 a = CDone u \/ u = Some owner.
+Proof.
+  intros OI L S. cbv zeta.
+  assert (E : EInv owner w0 (crun c w0 evs)).
+  { apply (crun_ind c (EInv owner w0)).
+    - intros w e w' E H. eapply cstep_einv; eauto.
+    - unfold EInv. repeat split; auto. }
+  destruct E as [F [P [C [_ [_ A]]]]]. auto.
+Qed.
+
+Lemma chain_one_identity owner n : one_identity owner (chain owner n).
+Proof.
+  split.
+  - intros g m N _. apply chain_nth in N. destruct N as [-> _]. reflexivity.
+  - exists n. eexists. split; [apply chain_last | reflexivity].
+Qed.
+
+Theorem existing_never_reinitialised c owner n lost evs :
+  let w := crun c (existing_n owner n lost) evs in
+  c_files w = chain owner n /\ c_ptr w = (if lost then None else Some n) /\ c_creates w = []
   /\ forall a u, c_pc w a = CDone u -> u = Some owner.
 Proof.
-  set (p0 := if lost then None else Some 0).
-  assert (HP : p0 = None \/ p0 = Some 0) by (unfold p0; destruct lost; auto).
-  assert (G : forall l w0, EInv owner p0 w0 -> EInv owner p0 (crun c w0 l)).
-  { induction l as [|e l IH]; intros w0 E; [exact E|]. rewrite crun_cons. apply IH. unfold cstep_skip.
-    destruct (cstep c w0 e) eqn:St; [eapply cstep_einv; eauto | exact E]. }
-  assert (E0 : EInv owner p0 (existing owner lost)).
-  { unfold EInv, existing. simpl. repeat split; auto. }
-  destruct (G evs _ E0) as [F [P [C [_ A]]]]. cbv zeta. repeat split; auto.
-  intros a u D. destruct (A a) as [X|X]; rewrite X in D; [discriminate | inversion D; reflexivity].
+  cbv zeta.
+  destruct (existing_never_reinitialised_gen c owner (existing_n owner n lost) evs) as [F [P [C A]]].
+  - apply chain_one_identity.
+  - reflexivity.
+  - intro a. reflexivity.
+  - repeat split; auto. intros a u D. destruct (A a u D) as [X|X]; [discriminate | exact X].
 Qed.
 
-(* with the exclusive lock at most one metadata file is ever written, so every caller that finishes
-   ends up on the same table identity *)
-Lemma excl_one_file c w : lockkind c = Excl -> CInv c w -> (length (c_files w) <= 1)%nat ->
-  forall e w', cstep c w e = Some w' -> (length (c_files w') <= 1)%nat /\ (forall x, c_files w = [x] -> c_files w' = [x]).
+(* ------------------------------------------------------------------ what a creation race leaves behind *)
+Definition wrote (p : cpc) : bool :=
+  match p with CIdle | CProbedNone | CLocked | CChecked => false | _ => true end.
+
+Record RInv (w : cworld) : Prop := {
+  R_orphan : forall g m, nth_error (c_files w) g = Some m -> f_live m = true ->
+             c_ptr w = Some g \/ own_of (c_pc w (f_id m)) = Some g;
+  R_one : c_ptr w <> None -> length (c_creates w) = 1%nat;
+  R_creator : forall f, c_ptr w = Some f -> exists m, nth_error (c_files w) f = Some m /\ c_creates w = [f_id m];
+  R_nodead : c_ptr w = None -> forall g m, nth_error (c_files w) g = Some m -> f_live m = true;
+  R_uniq : forall g h m m', nth_error (c_files w) g = Some m -> nth_error (c_files w) h = Some m' -> f_id m = f_id m' -> g = h;
+  R_fresh : forall g m, nth_error (c_files w) g = Some m -> wrote (c_pc w (f_id m)) = true;
+  R_adopt : forall a u, c_pc w a = CDone (Some u) -> c_files w <> [] }.
+
+Lemma absent_rinv : RInv absent.
 Proof.
-  intros LK I L e w' H. unfold cstep in H. cbv zeta in H.
-  destruct (ce_kind e) as [found|ok|found| |ok| | ]; [ | destruct ok | | | | | ];
-    destruct (c_pc w (ce_actor e)) eqn:PC; try discriminate;
-    repeat match goal with
-           | H : (if ?b then _ else _) = Some _ |- _ => destruct b eqn:?; try discriminate
-           end; inversion H; subst w'; simpl; auto.
-  destruct (proj1 (CI_excl c w I LK (ce_actor e)) PC) as [_ F]. rewrite F. simpl. split; [lia | intros x X; discriminate].
+  constructor; simpl; try (intros; destruct g; discriminate); try discriminate.
+  - intro X. contradiction.
 Qed.
 
+(* steps that change one actor's program counter only *)
+Lemma set_rinv w a p : RInv w ->
+  own_of p = own_of (c_pc w a) -> (wrote (c_pc w a) = true -> wrote p = true) ->
+  (forall u, p = CDone (Some u) -> c_files w <> []) -> RInv (set w a p).
+Proof.
+  intros R Ho Hw Ha. constructor; simpl; try apply R.
+  - intros g m N L. destruct (R_orphan w R g m N L) as [X|X]; [auto|]. right. upd (f_id m) a; [congruence | exact X].
+  - intros g m N. pose proof (R_fresh w R g m N) as X. upd (f_id m) a; [auto | exact X].
+  - intros b u D. upd b a; [apply (Ha u D) | apply (R_adopt w R b u D)].
+Qed.
+
+Lemma table_id_files w u : table_id w = Some u -> c_files w <> [].
+Proof.
+  unfold table_id, identity. destruct (resolve w) as [f|]; [|discriminate]. destruct (c_files w); [destruct f; discriminate | discriminate].
+Qed.
+
+Lemma cstep_rinv c w e w' : sound c -> CInv c w -> RInv w -> cstep c w e = Some w' -> RInv w'.
+Proof.
+  intros Snd I R H. open_step H.
+  - (* Probe *)
+    apply set_rinv; auto; rewrite ?PC.
+    + destruct found; reflexivity.
+    + discriminate.
+    + intros u D. destruct found; [|discriminate]. inversion D. eapply table_id_files; eauto.
+  - (* LockTry true *)
+    set (a := ce_actor e) in *.
+    constructor; simpl; try apply R.
+    + intros g m N L. destruct (R_orphan w R g m N L) as [X|X]; [auto|]. right. upd (f_id m) a; [rewrite PC in X; discriminate | exact X].
+    + intros g m N. pose proof (R_fresh w R g m N) as X. upd (f_id m) a; [rewrite PC in X; discriminate | exact X].
+    + intros b u D. upd b a; [discriminate | apply (R_adopt w R b u D)].
+  - (* LockTry false *) exact R.
+  - (* Check *)
+    apply set_rinv; auto; rewrite ?PC.
+    + destruct found; reflexivity.
+    + discriminate.
+    + intros u D. destruct found; discriminate.
+  - (* MetaW *)
+    set (a := ce_actor e) in *.
+    assert (NoFile : forall g m, nth_error (c_files w) g = Some m -> f_id m <> a).
+    { intros g m N E. pose proof (R_fresh w R g m N) as X. rewrite E, PC in X. discriminate. }
+    constructor; simpl.
+    + intros g m N L. apply nth_error_app_inv in N. destruct N as [N|[-> ->]].
+      * destruct (R_orphan w R g m N L) as [X|X]; [auto|]. right. upd (f_id m) a; [exfalso; eapply NoFile; eauto | exact X].
+      * right. simpl. rewrite updc_same. reflexivity.
+    + apply R.
+    + intros g P. destruct (R_creator w R g P) as [m [N C]]. exists m. split; [apply nth_error_app_old; exact N | exact C].
+    + intros P g m N. apply nth_error_app_inv in N. destruct N as [N|[_ ->]]; [apply (R_nodead w R P g m N) | reflexivity].
+    + intros g h m m' N N' E. apply nth_error_app_inv in N. apply nth_error_app_inv in N'.
+      destruct N as [N|[-> ->]], N' as [N'|[-> ->]]; simpl in *.
+      * eapply R_uniq; eauto.
+      * exfalso. eapply NoFile; eauto.
+      * exfalso. eapply NoFile; eauto.
+      * reflexivity.
+    + intros g m N. apply nth_error_app_inv in N. destruct N as [N|[_ ->]]; simpl.
+      * pose proof (R_fresh w R g m N) as X. upd (f_id m) a; [reflexivity | exact X].
+      * rewrite updc_same. reflexivity.
+    + intros b u D. destruct (c_files w); discriminate.
+  - (* PtrCreate true *)
+    set (a := ce_actor e) in *. apply eqb_prop in B.
+    assert (PN : c_ptr w = None).
+    { destruct Snd as [CAS|EX].
+      - rewrite CAS in B. destruct (c_ptr w); [discriminate|reflexivity].
+      - apply (proj1 (proj2 (CI_excl c w I EX a)) f PC). }
+    constructor; simpl; try apply R.
+    + intros g m N L. destruct (R_orphan w R g m N L) as [X|X]; [congruence|].
+      upd (f_id m) a; [rewrite PC in X; inversion X; auto | auto].
+    + intros _. rewrite app_length, (proj1 (CI_creates c w I) PN). reflexivity.
+    + intros g P. inversion P; subst g. pose proof (CI_own c w I a f) as Of. rewrite PC in Of. specialize (Of eq_refl).
+      exists (v0 a). split; [exact Of|]. rewrite (proj1 (CI_creates c w I) PN). reflexivity.
+    + discriminate.
+    + intros g m N. pose proof (R_fresh w R g m N) as X. upd (f_id m) a; [reflexivity | exact X].
+    + intros b u D. upd b a; [discriminate | apply (R_adopt w R b u D)].
+  - (* PtrCreate refused *)
+    apply set_rinv; auto; rewrite ?PC; try reflexivity. discriminate.
+  - (* Recheck: in a race from nothing the table in effect is never the loser's *)
+    set (a := ce_actor e) in *. apply eqb_prop in B.
+    assert (NS : same = false).
+    { subst same. unfold in_effect, table_id, resolve.
+      destruct (c_ptr w) as [g|] eqn:P; [|exfalso; apply (CI_conf c w I a f); auto].
+      destruct (CI_ptr c w I g P) as [L N]. rewrite L. unfold identity. unfold live in L.
+      destruct (nth_error (c_files w) g) as [m|] eqn:Ng; [|discriminate]. simpl.
+      destruct (Nat.eqb_spec (f_id m) a) as [E|NE]; [|reflexivity]. exfalso.
+      pose proof (CI_own c w I a f) as Of. rewrite PC in Of. specialize (Of eq_refl).
+      assert (g = f) by (eapply (R_uniq w R g f); eauto). subst g. apply (N a). rewrite PC. reflexivity. }
+    subst same. rewrite NS. apply set_rinv; auto; rewrite ?PC; try reflexivity. discriminate.
+  - (* Discard *)
+    set (a := ce_actor e) in *.
+    pose proof (CI_own c w I a f) as Of. rewrite PC in Of. specialize (Of eq_refl).
+    constructor; simpl; try apply R.
+    + intros g m N L. destruct (kill_nth _ _ _ _ N) as [m0 [N0 [Ei [_ K]]]]. destruct (K L) as [NE ->].
+      destruct (R_orphan w R g m0 N0 L) as [X|X]; [auto|]. right.
+      upd (f_id m0) a; [rewrite PC in X; inversion X; congruence | exact X].
+    + intros g P. destruct (R_creator w R g P) as [m [N C]]. destruct (Nat.eq_dec g f) as [->|NE].
+      * rewrite (kill_nth_same _ _ _ N). eexists. split; [reflexivity | exact C].
+      * rewrite kill_nth_other by exact NE. eauto.
+    + intro P. exfalso. apply (CI_conf c w I a f); auto.
+    + intros g h m m' N N' E. destruct (kill_nth _ _ _ _ N) as [m0 [N0 [Ei _]]]. destruct (kill_nth _ _ _ _ N') as [m1 [N1 [Ei' _]]].
+      eapply (R_uniq w R g h); eauto. congruence.
+    + intros g m N. destruct (kill_nth _ _ _ _ N) as [m0 [N0 [Ei _]]]. rewrite Ei.
+      pose proof (R_fresh w R g m0 N0) as X. upd (f_id m0) a; [reflexivity | exact X].
+    + intros b u D. upd b a; [discriminate|]. pose proof (R_adopt w R b u D) as X.
+      intro K. apply X. destruct (c_files w); [reflexivity | destruct f; discriminate].
+  - (* Release from CPointed *)
+    set (a := ce_actor e) in *.
+    constructor; simpl; try apply R.
+    + intros g m N L. destruct (R_orphan w R g m N L) as [X|X]; [auto|]. right. upd (f_id m) a; [rewrite PC in X; discriminate | exact X].
+    + intros g m N. pose proof (R_fresh w R g m N) as X. upd (f_id m) a; [reflexivity | exact X].
+    + intros b u D. upd b a; [discriminate | apply (R_adopt w R b u D)].
+  - (* Release from CExists *)
+    set (a := ce_actor e) in *.
+    constructor; simpl; try apply R.
+    + intros g m N L. destruct (R_orphan w R g m N L) as [X|X]; [auto|]. right. upd (f_id m) a; [rewrite PC in X; discriminate | exact X].
+    + intros g m N. pose proof (R_fresh w R g m N) as X. upd (f_id m) a; [reflexivity | exact X].
+    + intros b u D. upd b a; [discriminate | apply (R_adopt w R b u D)].
+  - (* Adopt *)
+    apply set_rinv; auto; rewrite ?PC; try reflexivity.
+    intros u D. inversion D. eapply table_id_files; eauto.
+Qed.
+
+Lemma crun_rinv c evs : sound c -> CInv c (crun c absent evs) /\ RInv (crun c absent evs).
+Proof.
+  intro Snd. apply (crun_ind c (fun w => CInv c w /\ RInv w)).
+  - intros w e w' [I R] H. split; [eapply cstep_inv; eauto | eapply cstep_rinv; eauto].
+  - split; [apply absent_inv | apply absent_rinv].
+Qed.
+
+Lemma settled_own w a : settled w -> own_of (c_pc w a) = None.
+Proof. intro S. specialize (S a). destruct (c_pc w a); try discriminate; reflexivity. Qed.
+
+Lemma settled_unlocked c w : CInv c w -> settled w -> c_lock w = None.
+Proof.
+  intros I S. destruct (c_lock w) as [a|] eqn:L; [|reflexivity]. pose proof (CI_held c w I a L) as X. specialize (S a).
+  destruct (c_pc w a); discriminate.
+Qed.
+
+(* Once every caller of a creation race on an absent table has returned, the only metadata file left on storage is
+   the one the pointer names: recovery after a loss of the pointer finds the same table. *)
+Theorem race_leaves_one_table c evs f : sound c ->
+  let w := crun c absent evs in
+  settled w -> c_ptr w = Some f ->
+  live w f = true /\ (forall g, live w g = true -> g = f)
+  /\ resolve (lose_ptr w) = Some f /\ table_id (lose_ptr w) = table_id w.
+Proof.
+  intros Snd w S P. destruct (crun_rinv c evs Snd) as [I R]. fold w in I, R.
+  destruct (CI_ptr c w I f P) as [L _].
+  assert (U : forall g m, nth_error (c_files w) g = Some m -> f_live m = true -> g = f).
+  { intros g m N Lm. destruct (R_orphan w R g m N Lm) as [X|X]; [congruence|]. rewrite settled_own in X by exact S. discriminate. }
+  assert (Rv : recover (c_files w) = Some f).
+  { apply recover_only; [exact U|]. unfold live in L. destruct (nth_error (c_files w) f) as [m|]; [eauto | discriminate]. }
+  split; [exact L|]. split.
+  - intros g Lg. unfold live in Lg. destruct (nth_error (c_files w) g) as [m|] eqn:N; [eapply U; eauto | discriminate].
+  - unfold table_id, resolve. simpl. rewrite Rv, P, L. split; reflexivity.
+Qed.
+
+(* exactly one initialisation: once every caller has returned and anybody got as far as writing metadata (or ended on a
+   table at all), exactly one pointer creation has succeeded and the pointer names the table *)
+Theorem exactly_one_init c evs : sound c ->
+  let w := crun c absent evs in
+  settled w -> (c_files w <> [] \/ exists a u, c_pc w a = CDone (Some u)) ->
+  exists f u, c_creates w = [u] /\ c_ptr w = Some f /\ identity w f = Some u /\ table_id w = Some u.
+Proof.
+  intros Snd w S NE. destruct (crun_rinv c evs Snd) as [I R]. fold w in I, R.
+  assert (F : c_files w <> []) by (destruct NE as [X|[a [u D]]]; [exact X | apply (R_adopt w R a u D)]).
+  destruct (c_ptr w) as [f|] eqn:P.
+  - destruct (R_creator w R f P) as [m [N C]]. exists f, (f_id m). destruct (CI_ptr c w I f P) as [L _].
+    unfold table_id, resolve, identity. rewrite P, L, N. auto.
+  - exfalso. destruct (c_files w) as [|m t] eqn:Fl; [contradiction|].
+    assert (N : nth_error (c_files w) 0 = Some m) by (rewrite Fl; reflexivity).
+    pose proof (R_nodead w R P 0 m N) as L. destruct (R_orphan w R 0 m N L) as [X|X]; [congruence|].
+    rewrite settled_own in X by exact S. discriminate.
+Qed.
+
+(* ... and that state, with its pointer then lost, is an existing table that nobody re-initialises: every later caller
+   (creator or opener, any interleaving) ends on the identity the pointer named *)
+Theorem race_then_pointer_loss c evs1 evs2 f u : sound c ->
+  let w1 := crun c absent evs1 in
+  settled w1 -> c_ptr w1 = Some f -> identity w1 f = Some u ->
+  let w2 := crun c (lose_ptr w1) evs2 in
+  c_files w2 = c_files w1 /\ c_ptr w2 = None /\ c_creates w2 = c_creates w1
+  /\ forall a x, c_pc w2 a = CDone x -> c_pc w1 a = CDone x \/ x = Some u.
+Proof.
+  intros Snd w1 S P Id w2. destruct (crun_rinv c evs1 Snd) as [I R]. fold w1 in I, R.
+  destruct (race_leaves_one_table c evs1 f Snd S P) as [L [U _]]. fold w1 in L, U.
+  apply (existing_never_reinitialised_gen c u (lose_ptr w1) evs2).
+  - split.
+    + intros g m N Lm. simpl in N. assert (g = f) by (apply U; unfold live; rewrite N; exact Lm). subst g.
+      unfold identity in Id. rewrite N in Id. inversion Id. reflexivity.
+    + simpl. unfold live in L. destruct (nth_error (c_files w1) f) as [m|] eqn:N; [|discriminate]. exists f, m. auto.
+  - simpl. apply (settled_unlocked c w1 I S).
+  - exact S.
+Qed.
+
+(* ------------------------------------------------------------------ every caller on the same table *)
+(* (a) once the table is published, every call that returns afterwards is on it -- any storage with real mutual
+   exclusion, any interleaving *)
+Theorem same_table_published c w1 evs f u : sound c -> CInv c w1 -> c_ptr w1 = Some f -> identity w1 f = Some u ->
+  let w2 := crun c w1 evs in
+  table_id w2 = Some u /\ forall a x, c_pc w2 a = CDone x -> c_pc w1 a = CDone x \/ x = Some u.
+Proof.
+  intros Snd I1 P1 Id1. cbv zeta.
+  set (K := fun w => CInv c w /\ c_ptr w = Some f /\ identity w f = Some u
+                     /\ forall a x, c_pc w a = CDone x -> c_pc w1 a = CDone x \/ x = Some u).
+  assert (T : forall w, K w -> table_id w = Some u).
+  { intros w [I [P [Id _]]]. destruct (CI_ptr c w I f P) as [L _]. unfold table_id, resolve. rewrite P, L. exact Id. }
+  assert (G : K (crun c w1 evs)).
+  { apply (crun_ind c K).
+    - intros w e w' Kw H. pose proof (T w Kw) as Tw. destruct Kw as [I [P [Id A]]].
+      split; [eapply cstep_inv; eauto|]. split; [eapply cstep_ptr_stable; eauto|]. split; [eapply cstep_identity; eauto|].
+      clear T. open_step H; simpl; auto; intros b x D; upd b (ce_actor e); try discriminate; try (apply (A b x D)).
+      + destruct found; [|discriminate]. inversion D. right. congruence.
+      + destruct found; discriminate.
+      + destruct same; discriminate.
+      + inversion D. right. congruence.
+    - unfold K. split; [exact I1|]. split; [exact P1|]. split; [exact Id1|]. intros; auto. }
+  split; [apply T; exact G | apply G].
+Qed.
+
+(* (b) with the exclusive lock also before publication: at most one metadata file is ever written, so every caller
+   that returned is on the table now in effect *)
 Definition AdoptOne (w : cworld) : Prop :=
-  (length (c_files w) <= 1)%nat /\ forall a u, c_pc w a = CDone (Some u) -> c_files w = [u].
+  (length (c_files w) <= 1)%nat /\ forall a u, c_pc w a = CDone (Some u) -> map f_id (c_files w) = [u].
 
-Lemma cstep_done_shape c w e w' b u : cstep c w e = Some w' -> c_pc w' b = CDone (Some u) ->
-  c_pc w b = CDone (Some u) \/ match resolve w with Some f => identity w f | None => None end = Some u.
+Lemma one_file_table_id w u : (length (c_files w) <= 1)%nat -> table_id w = Some u -> map f_id (c_files w) = [u].
 Proof.
-  intros H D. unfold cstep in H. cbv zeta in H.
-  destruct (ce_kind e) as [found|ok|found| |ok| | ]; [ | destruct ok | | | | | ];
-    destruct (c_pc w (ce_actor e)) eqn:PC; try discriminate;
-    repeat match goal with
-           | H : (if ?b then _ else _) = Some _ |- _ => destruct b eqn:?; try discriminate
-           end; inversion H; subst w'; simpl in D;
-    try (destruct (Nat.eq_dec b (ce_actor e)) as [E|NE];
-         [subst b; rewrite updc_same in D | rewrite updc_other in D by exact NE; left; exact D]);
-    try (left; exact D); try discriminate;
-    try (destruct found; try discriminate);
-    try (right; inversion D; reflexivity).
+  unfold table_id, identity. intros L T. destruct (resolve w) as [f|]; [|discriminate].
+  destruct (c_files w) as [|m [|m' t]]; simpl in *; try lia.
+  - destruct f; discriminate.
+  - destruct f as [|f]; simpl in T; [inversion T; reflexivity | destruct f; discriminate].
 Qed.
 
-Lemma cstep_adopt_one c w e w' : sound c -> lockkind c = Excl -> CInv c w -> AdoptOne w -> cstep c w e = Some w' -> AdoptOne w'.
+Lemma cstep_adopt_one c w e w' : lockkind c = Excl -> CInv c w -> AdoptOne w -> cstep c w e = Some w' -> AdoptOne w'.
 Proof.
-  intros Snd LK I [L A] H. destruct (excl_one_file c w LK I L e w' H) as [L' Keep]. split; [exact L'|].
-  intros b u D. destruct (cstep_done_shape c w e w' b u H D) as [Old|New].
-  - apply Keep. apply (A b u Old).
-  - apply Keep. unfold resolve, identity in New.
-    destruct (c_ptr w) as [f|].
-    + destruct (c_files w) as [|x [|y t]]; simpl in *; try lia.
-      * destruct f; discriminate.
-      * destruct f as [|f]; simpl in New; [inversion New; reflexivity | destruct f; discriminate].
-    + destruct (c_files w) as [|x [|y t]]; simpl in *; try discriminate; try lia. inversion New; reflexivity.
+  intros LK I [L A] H. unfold AdoptOne. open_step H; simpl.
+  - split; [exact L|]. intros b u D. upd b (ce_actor e); [|apply (A b u D)].
+    destruct found; [|discriminate]. inversion D as [T]. apply one_file_table_id; auto.
+  - split; [exact L|]. intros b u D. upd b (ce_actor e); [discriminate | apply (A b u D)].
+  - auto.
+  - split; [exact L|]. intros b u D. upd b (ce_actor e); [destruct found; discriminate | apply (A b u D)].
+  - destruct (proj1 (CI_excl c w I LK (ce_actor e)) PC) as [_ F]. rewrite F in *. simpl. split; [lia|].
+    intros b u D. upd b (ce_actor e); [discriminate|]. specialize (A b u D). discriminate.
+  - split; [exact L|]. intros b u D. upd b (ce_actor e); [discriminate | apply (A b u D)].
+  - split; [exact L|]. intros b u D. upd b (ce_actor e); [discriminate | apply (A b u D)].
+  - split; [exact L|]. intros b u D. upd b (ce_actor e); [destruct same; discriminate | apply (A b u D)].
+  - exfalso. apply (proj2 (proj2 (proj2 (CI_excl c w I LK (ce_actor e))) f) PC).
+  - split; [exact L|]. intros b u D. upd b (ce_actor e); [discriminate | apply (A b u D)].
+  - split; [exact L|]. intros b u D. upd b (ce_actor e); [discriminate | apply (A b u D)].
+  - split; [exact L|]. intros b u D. upd b (ce_actor e); [|apply (A b u D)].
+    inversion D as [T]. apply one_file_table_id; auto.
 Qed.
 
 Theorem same_table_excl c evs : sound c -> lockkind c = Excl ->
   let w := crun c absent evs in
-  forall a b u u', c_pc w a = CDone (Some u) -> c_pc w b = CDone (Some u') -> u = u'.
+  forall a u, c_pc w a = CDone (Some u) -> table_id w = Some u.
 Proof.
-  intros Snd LK.
-  assert (G : forall l w0, CInv c w0 -> AdoptOne w0 -> AdoptOne (crun c w0 l)).
-  { induction l as [|e l IH]; intros w0 I0 A0; [exact A0|]. rewrite crun_cons. unfold cstep_skip.
-    destruct (cstep c w0 e) as [w1|] eqn:St; [|apply IH; auto].
-    apply IH; [eapply cstep_inv; eauto | eapply cstep_adopt_one; eauto]. }
-  assert (A0 : AdoptOne absent) by (split; [simpl; lia | intros a u D; discriminate]).
-  destruct (G evs absent (absent_inv c) A0) as [_ A]. cbv zeta. intros a b u u' Da Db.
-  pose proof (A a u Da) as X. pose proof (A b u' Db) as Y. congruence.
+  intros Snd LK w a u D.
+  assert (G : CInv c w /\ AdoptOne w).
+  { apply (crun_ind c (fun x => CInv c x /\ AdoptOne x)).
+    - intros x e x' [I A] H. split; [eapply cstep_inv; eauto | eapply cstep_adopt_one; eauto].
+    - split; [apply absent_inv|]. split; [simpl; lia | intros b v X; discriminate]. }
+  destruct G as [I [L A]]. pose proof (A a u D) as F.
+  destruct (c_files w) as [|m [|m' t]] eqn:Fl; simpl in *; try discriminate; try lia. inversion F; subst u.
+  assert (Lm : f_live m = true) by (apply (CI_alllive c w I LK 0 m); rewrite Fl; reflexivity).
+  unfold table_id, resolve, identity, live. rewrite Fl. destruct (c_ptr w) as [[|[|f]]|]; simpl; rewrite ?Lm; simpl; reflexivity.
+Qed.
+
+(* (c) the identity a call saw WHEN IT RETURNED is not always the table's: on conditional-write storage whose lock gives no
+   exclusion an opener can return while two unpublished v0 files exist and see the one that then loses.  (A Table handle
+   holds no identity: it resolves the table again on every use, so the caller is on the winner's table from then on.) *)
+Definition same_table_full : Prop := forall c evs, sound c ->
+  let w := crun c absent evs in
+  forall a b u u', c_pc w a = CDone (Some u) -> c_pc w b = CDone (Some u') -> u = u'.
+
+Definition cev a k := {| ce_actor := a; ce_kind := k |}.
+Definition refute_cfg : cfg := {| cas := true; lockkind := GrantAll |}.
+Definition refute_evs : list cevent :=
+  [cev 0 (CProbe false); cev 1 (CProbe false); cev 0 (CLockTry true); cev 1 (CLockTry true);
+   cev 0 (CCheck false); cev 1 (CCheck false); cev 0 CMetaW; cev 1 CMetaW;
+   cev 2 (CProbe true);                          (* opener: no pointer yet, recovery picks the newer v0 = 1's *)
+   cev 0 (CPtrCreate true); cev 1 (CPtrCreate false); cev 1 (CRecheck false); cev 1 CDiscard;
+   cev 0 CRelease; cev 1 CRelease; cev 0 CAdopt; cev 1 CAdopt].
+
+Theorem same_table_full_refuted : ~ same_table_full.
+Proof.
+  intro H. specialize (H refute_cfg refute_evs (or_introl eq_refl) 2 0 1 0).
+  assert (X : 1 = 0); [apply H; vm_compute; reflexivity | discriminate].
+Qed.
+
+(* ------------------------------------------------------------------ the machine is the protocol the source performs *)
+Definition solo_events (a : aid) : list cevent :=
+  {| ce_actor := a; ce_kind := CProbe false |}
+  :: map (fun k => {| ce_actor := a; ce_kind := k |}) creator_events ++ [{| ce_actor := a; ce_kind := CAdopt |}].
+
+Theorem skeleton_regenerated :
+  create_model_path = gen_create_path_cas /\ create_model_path = gen_create_path_plain
+  /\ (forall atomic, gen_create_fail true atomic FEPrecondition = conflict_class)
+  /\ conflict_class = CFTableExistsDiscardForeign
+  /\ (forall casb atomic, (casb = true \/ atomic = false) -> gen_create_fail casb atomic FEError = CFKeepRaise)
+  /\ gen_create_fail false true FEError = CFDiscardRaise
+  /\ (forall c (a : aid),
+        exists w', crun_strict c absent (solo_events a) 0 = inl w' /\ c_creates w' = [a] /\ c_pc w' a = CDone (Some a)
+                   /\ c_ptr w' = Some 0 /\ map f_id (c_files w') = [a]).
+Proof.
+  split; [reflexivity|]. split; [reflexivity|]. split; [intros []; reflexivity|]. split; [reflexivity|]. split.
+  - intros casb atomic [H|H]; subst; [destruct atomic | destruct casb]; reflexivity.
+  - split; [reflexivity|]. intros [casb lk] a. unfold solo_events. eexists.
+    destruct casb, lk; repeat (cbn; unfold updc, release, set, table_id, resolve, identity, live; cbn; rewrite ?Nat.eqb_refl);
+      (split; [reflexivity|]); repeat (cbn; unfold updc; rewrite ?Nat.eqb_refl); repeat split; reflexivity.
 Qed.
